@@ -405,8 +405,8 @@ Proof.
     + destruct (closedF s); injection CL as <- <-.
       * change (SInv ((set_t (s <| hlock := None |>) t (TClose (KRet (negb (closeErr s))))) <| clock := None |>)).
         apply sinv_clock. eapply k_release_thr; eauto.
-      * change (SInv ((set_t (close_unstarted s) t (TClose KWait)) <| closedF := true |> <| closingCh := true |>)).
-        apply sinv_closingCh, sinv_closedF.
+      * change (SInv ((set_t (close_unstarted s) t (TClose KWait)) <| closedF := true |> <| closingCh := true |> <| wremoved := wremoved s || false |>)).
+        apply sinv_wremoved, sinv_closingCh, sinv_closedF.
         assert (HL : hlock s = Some (OThr t)) by (apply hl_of_thr; auto; now rewrite E).
         apply (k_move_thr _ t KCheck); auto.
         -- apply sinv_close_unstarted; auto. eapply lockpc_closer_thr; eauto.
@@ -487,8 +487,8 @@ Proof.
     + destruct (closedF s); injection CL as <- <-; injection H as <- <-.
       * change (SInv ((s <| hlock := None |> <| wat := WDone |>) <| clock := None |>)).
         apply sinv_clock. eapply k_release_wat; eauto.
-      * change (SInv ((close_unstarted s <| wat := WClose KWait |>) <| closedF := true |> <| closingCh := true |>)).
-        apply sinv_closingCh, sinv_closedF.
+      * change (SInv ((close_unstarted s <| wat := WClose KWait |>) <| closedF := true |> <| closingCh := true |> <| wremoved := wremoved s || (fix16 s && negb (all_started s)) |>)).
+        apply sinv_wremoved, sinv_closingCh, sinv_closedF.
         assert (HL : hlock s = Some OWatch) by (apply hl_of_wat; auto; now rewrite E).
         apply (k_move_wat _ KCheck); auto.
         -- apply sinv_close_unstarted; auto. now apply lockpc_watch.
